@@ -41,6 +41,7 @@ class Oracle(object):
         pre_queue = list(env.queue)
         pre_state = run.state() if idx else None
         pre_exc = run.future._final_exception
+        pre_done = self.pre_done = run.completed()     # first outcome wins: a completed request keeps its outcome
         pre_cl = getattr(run.future.message, 'consistency_level', None)
         pools = list(env.pool_state)
         n_cons = len(env.consults)
@@ -91,9 +92,9 @@ class Oracle(object):
                         self.flag('retry.not_scheduled', '%s decided for %r but no retry was scheduled' % (
                             H.DECISION_NAMES[dec], op), 'C16_obeys')
             elif self.which == 'C16':
-                if dec == 1 and st['exc'] != [1, op[2][1], op[2][2]]:
+                if dec == 1 and not pre_done and st['exc'] != [1, op[2][1], op[2][2]]:
                     self.flag('rethrow.wrong_outcome', 'RETHROW decided for %r but final exception is %r' % (op, st['exc']), 'C16_obeys')
-                if dec == 2 and st['res'] != 1:
+                if dec == 2 and not pre_done and st['res'] != 1:
                     self.flag('ignore.wrong_outcome', 'IGNORE decided for %r but result is %r' % (op, st['res']), 'C16_obeys')
                 if sends or len(env.queue) != len(pre_queue):
                     self.flag('rethrow_ignore.retried', '%s decided for %r but something was sent/scheduled' % (
@@ -132,7 +133,7 @@ class Oracle(object):
                     self.cursor = j + 1
         if task_exp and not sends:
             self.task_nosend(task_exp, pools, pre_exc, st, op)
-        if self.which == 'C17' and not sends and pre_exc is None and not (st['exc'] and st['exc'][0] == 5) and (
+        if self.which == 'C17' and not sends and not pre_done and not (st['exc'] and st['exc'][0] == 5) and (
                 op[0] == 'start' or (task_exp and task_exp['kind'] == 'retry')):
             # a send_request with error_no_hosts=True ends with a message or with NoHostAvailable
             self.flag('walk.neither_sent_nor_failed', 'after %r no message was sent and the request did not fail with NoHostAvailable '
@@ -267,7 +268,7 @@ class Oracle(object):
         h = resp_ctx['host']
         if mismatch:
             if self.which == 'C19':
-                if st['exc'] != [7]:
+                if not self.pre_done and st['exc'] != [7]:
                     self.flag('keyspace_mismatch.wrong_outcome', 'session keyspace %r != statement keyspace %r but final exception is %r (%r)' % (ks_now, stmt[2], st['exc'], op), 'C19_mismatch_fails_and_stops')
                 if sends or len(env.queue) != len(pre_queue):
                     self.flag('keyspace_mismatch.continues', 'keyspace mismatch but something was sent/scheduled (%r)' % (op,), 'C19_mismatch_fails_and_stops')
@@ -278,7 +279,7 @@ class Oracle(object):
             self.flag('reprepare.not_scheduled', 'UNPREPARED from host %d but no re-prepare was scheduled (%r)' % (h, op), 'C19_reprepare')
 
     def after_prepare_outcome(self, t, pre_exc, sends, st, op, pre_queue):
-        if self.which != 'C19' or pre_exc is not None:
+        if self.which != 'C19' or pre_exc is not None or self.pre_done:
             return
         ps = self.sc['ps']
         r = t['resp']
